@@ -103,6 +103,9 @@ class InstructionEmbryo(embryo.PhaseAgnosticInstructionEmbryo[Optional[TextRende
             return error('Directory does not exist')
         except NotADirectoryError:
             return error('Not a directory')
+        except OSError as ex:
+            # E.g. a file name too long for the OS, or missing permission
+            return error(ex.strerror or 'Cannot change directory')
         return None
 
 
